@@ -19,7 +19,7 @@ import (
 
 // Call is one graph-construction call of a history.
 type Call struct {
-	Op string `json:"op"` // add | dep | retries | add2 (AddTask of a second Task object with the same ID) | sort (DepthFirstSort) | run (Run, judged, before the history goes on)
+	Op string `json:"op"` // max (SetMaxParallel(A) in the middle of a history) | add | dep | retries | add2 (AddTask of a second Task object with the same ID) | sort (DepthFirstSort) | run (Run, judged, before the history goes on)
 	A  int    `json:"a"`
 	B  int    `json:"b"`
 }
@@ -36,6 +36,8 @@ func (c Call) String() string {
 		return "DepthFirstSort()"
 	case "run":
 		return "Run()"
+	case "max":
+		return fmt.Sprintf("SetMaxParallel(%d)", c.A)
 	default:
 		return fmt.Sprintf("TaskRetries(%s,%d)", tid(c.A), c.B)
 	}
@@ -290,6 +292,7 @@ type run struct {
 	tasks2       []*dag.Task // second Task object per ID (same function)
 	sentinel     []error
 	multi        bool  // Run is called more than once
+	panicked     bool  // a task function panicked on purpose (script "panic")
 	failedBefore bool  // a task had failed or a cancellation had been requested when the current Run started
 	before       []int // attempts per task when the current Run started
 
@@ -417,6 +420,11 @@ func (r *run) graphOf(ctx context.Context) int {
 
 type graphKey struct{}
 
+// taskPanic is the value a task function with script "panic" panics with.
+type taskPanic struct{ task string }
+
+func (p taskPanic) String() string { return "harness task " + p.task + " panics (script)" }
+
 func (r *run) body(i int, ctx context.Context) error {
 	sc := r.sc
 	g := r.graphOf(ctx)
@@ -529,6 +537,19 @@ func (r *run) body(i int, ctx context.Context) error {
 
 	// ---- exit
 	rec.result = r.script(i, rec.attempt)
+	if rec.result == "panic" {
+		// the task function panics: it never returns nil (whatever the library makes of the panic)
+		rec.exited = true
+		r.running[i]--
+		r.runningG[g]--
+		r.order = append(r.order, "!"+tid(i))
+		verifrt.Emit("exit", tid(i), rec.attempt)
+		rec.exitVC = verifrt.CurrentVC()
+		r.failed = true
+		r.taskFailed = true
+		r.panicked = true
+		panic(taskPanic{tid(i)})
+	}
 	ctxErr := rec.result == "cerr" // an error of the task's own that wraps context.DeadlineExceeded while the run's context is live
 	if ctxErr {
 		rec.result = "err"
@@ -673,6 +694,9 @@ func (r *run) main() {
 			g.TaskDependsOn(r.tasks[c.A], r.tasks[c.B])
 		case "retries":
 			g.TaskRetries(r.tasks[c.A], c.B)
+		case "max":
+			g.SetMaxParallel(c.A)
+			r.capacity = c.A
 		case "sort":
 			r.m = declared(&Scenario{N: sc.N, Hist: sc.Hist[:idx]})
 			r.checkSort(g)
@@ -928,6 +952,11 @@ func (r *run) final(res *verifrt.Result) {
 		allReturned := r.returned[0] && (r.nGraphs == 1 || r.returned[1])
 		switch {
 		case res.Status == verifrt.StatusPanic:
+			if r.panicked && strings.Contains(res.Detail, "panics (script)") {
+				// the task's own panic took the program down: nothing else was promised; what ran before it was
+				// judged at enter time
+				return
+			}
 			r.fail("*", "panic: %s", res.Detail)
 			return
 		case res.Status == verifrt.StatusDiverged:
